@@ -200,14 +200,14 @@ def rangeVar (t : Ty) : Option Ty :=
   | .num => some .num
   | _ => none
 
-/-- parseIndexOrSliceExpr: `left[index]` -/
+/-- parseIndexOrSliceExpr: `left[index]`. A literal that is indexed directly is inferred first
+(inferLiteral: `[[]]` is [][]any), so an element never has an untyped type; for variables infer changes
+nothing. -/
 def indexType (left index : Ty) : Option Ty :=
-  match left with
+  match left.infer with
   | .str => if index == .num then some .str else none
   | .arr _ s => if index == .num then some s.fixedType else none
   | .map _ s => if index == .str then some s.fixedType else none
-  | .emptyArr => if index == .num then some .none else none
-  | .emptyMap => if index == .str then some .none else none
   | _ => none
 
 /-- parseSlice: `left[a:b]` -/
@@ -216,9 +216,8 @@ def sliceType (left : Ty) : Option Ty :=
 
 /-- parseDotExpr -/
 def dotType (left : Ty) : Option Ty :=
-  match left with
+  match left.infer with
   | .map _ s => some s.fixedType
-  | .emptyMap => some .none
   | _ => none
 
 /-- parseTypeAssertion `left.(t)` -/
